@@ -38,13 +38,13 @@ def collect(ctx, props, plans, design=(), report_deaths=False, me=1):
         consts = {"MaxSteps": d["steps"], "AllowCrash": "TRUE" if d.get("crash") else "FALSE", "Universe": d.get("universe", "Small"),
                   "RichEntrances": "TRUE" if d.get("rich") else "FALSE", "AvoidPanics": "TRUE" if d.get("avoid", True) else "FALSE",
                   "MaxH": d.get("maxh", 2), "MaxR": d.get("maxr", 1)}
-        cfg = run.cfg("SM_design_%d.cfg" % len(design_cov), consts, invariants=tuple(d["invariants"]))
+        cfg = run.cfg("SM_design_%d.cfg" % len(design_cov), consts, invariants=tuple(d["invariants"]), properties=tuple(d.get("properties", ())))
         res = run.tlc(cfg, timeout=d.get("timeout", 1200), allow_violation=True)
         cex = None
         if res["violated"]:
             m = re.search(r"Error: (Invariant|Action property) (\w+) is violated", res["out"])
             cex = m.group(2) if m else "?"
-        design_cov.append({"universe": consts["Universe"], "steps": d["steps"], "crash": bool(d.get("crash")), "checked": list(d["invariants"]),
+        design_cov.append({"universe": consts["Universe"], "steps": d["steps"], "crash": bool(d.get("crash")), "checked": list(d["invariants"]) + list(d.get("properties", ())),
                            "distinct_states": res.get("distinct", 0), "generated": res.get("states", 0), "design_counterexample": cex})
         ctx.log("TLC StateMachineMC %s steps<=%d: %s distinct states%s" % (consts["Universe"], d["steps"], res.get("distinct"),
                 (", design counterexample for " + cex) if cex else ""))
